@@ -304,3 +304,78 @@ def check_C09(P, tier):
     R.analysed = {"files": ["src/bldfm/pbl_model.py", "src/bldfm/ffm_kormann_meixner.py", "src/bldfm/interface.py"],
                   "functions": ["vertical_profiles", "psi", "phi", "_psiM", "_phiM", "_phiC", "run_bldfm_single"], "paths": 7 + 3 + 12}
     return R, "exp/log identities, symbolic psi', sibling formulas, sign domain"
+
+
+# --------------------------------------------------------------------------
+# C08 wind-direction convention
+
+
+def wind_obligations(P):
+    obs = []
+    U = alg.sym("U_rot", pos=True)
+    wd = alg.sym("wind_dir")
+    site = "src/bldfm/utils.py::compute_wind_fields"
+    res = CM.run_paths(P, "bldfm.utils", "compute_wind_fields", [U, wd], {})
+    rets = [r for r in res if r.kind == "return"]
+    if len(res) != 1 or len(rets) != 1 or not (isinstance(rets[0].value, Tup) and len(rets[0].value.items) == 2):
+        return [req_ob("R-WIND", site, "one straight path returning (u, v)", False if res else None)]
+    u, v = rets[0].value.items
+    th = wd * alg.atom_expr(alg.PI) / 180
+    obs.append(eq_ob("R-WIND", site, "u = -U sin(pi wd/180)", u, -U * alg.sin(th), "meteorological convention: direction the wind blows FROM, clockwise from north"))
+    obs.append(eq_ob("R-WIND", site, "v = -U cos(pi wd/180)", v, -U * alg.cos(th), "meteorological convention"))
+    wa = _atom(wd)
+    for deg, (eu, ev), name in ((0, (ZERO, -U), "south"), (90, (-U, ZERO), "west"), (180, (ZERO, U), "north"), (270, (U, ZERO), "east")):
+        if isinstance(u, Expr) and isinstance(v, Expr):
+            obs.append(eq_ob("R-WIND", site, "wind_dir=%d blows toward %s (u)" % (deg, name), u.subs({wa: alg.const(deg)}), eu))
+            obs.append(eq_ob("R-WIND", site, "wind_dir=%d blows toward %s (v)" % (deg, name), v.subs({wa: alg.const(deg)}), ev))
+    # speed preserved: same amplitude, sine and cosine of the same angle (Pythagoras trusted)
+    if isinstance(u, Expr) and isinstance(v, Expr):
+        su = [a for a in u.atoms() if a.kind == "fn" and a.name in ("sin", "cos")]
+        sv = [a for a in v.atoms() if a.kind == "fn" and a.name in ("sin", "cos")]
+        ok = len(su) == 1 and len(sv) == 1 and {su[0].name, sv[0].name} == {"sin", "cos"} and su[0].args[0].eq(sv[0].args[0])
+        obs.append(req_ob("R-WIND", site, "u and v are the sine and cosine of one angle with one amplitude (speed preserved)", ok))
+    return obs
+
+
+def check_C08(P, tier):
+    import props_solver as psol
+    import rules_solver as RS
+    import props_wiring as pw
+
+    R = Result("C08", tier)
+    R.min_obligations = 40
+    R.explanation = ("A chain of exact links, each necessary for the footprint to lie upwind: (R-WIND) compute_wind_fields returns (-U sin, -U cos) of pi*wd/180 "
+                     "(0/90/180/270 -> toward S/W/N/E by substitution); (R-WIRE) the interface passes that pair in order as wind= and the tower's (x, y) as meas_pt; the "
+                     "profiles keep the direction at every height; (R-SYMBOL) the advective term of the layer matrix is -i(u lx + v ly) relative to the synthesis "
+                     "convention of the output transform, and the footprint uses the reflecting transform (R-REFLECT); (R-GEO) x is east and y north of the reference; "
+                     "(R-ORIENT) x runs along the last array axis, y along the first. 'Within a few degrees on a resolved domain' is numerical and not decided.")
+    R.trusted = [TRUST, "sin^2 + cos^2 = 1", "S-NUMPY: ifft2 synthesises with exp(+i k x)"]
+    R.add(wind_obligations(P))
+    # wiring edges
+    n_edges = 0
+    for run in pw.wiring_runs(P):
+        if run["levels"] != "none" or run["full"] or run["flux"]:
+            continue
+        for o in pw.wire_obligations(P, run):
+            k = o.key or {}
+            if (k.get("callee"), k.get("formal")) in (("compute_wind_fields", "u_rot"), ("compute_wind_fields", "wind_dir"), ("vertical_profiles", "wind"), ("steady_state_transport_solver", "meas_pt")):
+                R.add(o)
+                n_edges += 1
+    # direction kept by the profiles (all closures)
+    o1, runs = profile_obligations(P)
+    R.add([o for o in o1 if o.rule == "R-WIND@zm"])
+    # sign of the advective term + reflection
+    SA = RS.SolverAnalysis(P)
+    S, vd = RS.views(SA, False, False, "generic")
+    d0 = psol._one(RS.pick(vd, shifted=False), "dispersion unshifted")
+    R.add([o for o in RS.step_obligations(d0, 1, "R-SYMBOL", uniform=False) if "(q<-p), coefficient of dz^1" in o.what])
+    R.add(psol.reflect_obligations(SA, "R-REFLECT"))
+    S, vf = RS.views(SA, True, False, "generic")
+    f = psol._one(RS.pick(vf), "footprint")
+    R.add([o for o in psol.crop_obligations(f, "R-ORIENT", True) if "coordinate" in o.what or "varies along" in o.what or "shape" in o.what])
+    R.add(pw.geo_obligations(P, "R-GEO")[:8])
+    R.add(pw.tower_xy_obligations(P, "R-GEO"))
+    R.add(SA.fault_obs())
+    R.analysed = {"files": ["src/bldfm/utils.py", "src/bldfm/interface.py", "src/bldfm/config_parser.py", "src/bldfm/solver.py", "src/bldfm/pbl_model.py"],
+                  "functions": ["compute_wind_fields", "run_bldfm_single", "vertical_profiles", "ivp_solver", "steady_state_transport_solver", "latlon_to_xy", "TowerConfig.compute_local_xy"], "paths": SA.nruns}
+    return R, "chain of sign/orientation identities + wiring"
